@@ -34,12 +34,16 @@ H2(a, b) ==
   IN IF hits = {} THEN Assert(FALSE, <<"missing H2 entry", a, b>>)
      ELSE row[CHOOSE k \in hits : TRUE][2]
 
-\* the ideal root of a sparse leaf map, through the table of hash facts
-RECURSIVE SNode(_, _, _, _, _)
-SNode(dd, lv, zs, lev, i) ==
-  IF \A k \in DOMAIN lv : k \div Pow2(dd - lev) # i THEN zs[lev + 1]
+\* the ideal root of a sparse leaf map, through the table of hash facts (ks = the written positions below
+\* node (lev, i); splitting them on the way down keeps the cost at |leaves| * depth for batches of thousands)
+RECURSIVE SNodeK(_, _, _, _, _, _)
+SNodeK(dd, lv, zs, lev, i, ks) ==
+  IF ks = {} THEN zs[lev + 1]
   ELSE IF lev = dd THEN lv[i]
-  ELSE H2(SNode(dd, lv, zs, lev + 1, 2 * i), SNode(dd, lv, zs, lev + 1, 2 * i + 1))
+  ELSE LET mid == (2 * i + 1) * Pow2(dd - lev - 1)
+           lo == {k \in ks : k < mid}
+       IN H2(SNodeK(dd, lv, zs, lev + 1, 2 * i, lo), SNodeK(dd, lv, zs, lev + 1, 2 * i + 1, ks \ lo))
+SNode(dd, lv, zs, lev, i) == SNodeK(dd, lv, zs, lev, i, DOMAIN lv)
 
 Mutators == {"set", "delete", "append", "range", "override"}
 Alphabet ==
